@@ -37,6 +37,8 @@ def gen_cases(run):
             # torch's DistributedSampler with 2 replicas yields ceil(n/2) indices over a dataset of n
             g["M"] = g["N"] * 2 - rng.choice([0, 1])
         spec = {"g": g, "budget": H.gen_budget(rng, g), "cfgs": H.gen_configs(rng, g), "main_kind": kind, "seed": rng.randrange(10 ** 6)}
+        if rng.random() < 0.2:
+            spec["types"] = {"drop_last": rng.choice(["np", "int"])}  # drop_last as numpy bool / 0-1 int (the constructor takes it by truthiness)
         if list(spec["budget"].values())[0] == 0:
             spec["_trivial"] = True
         yield spec
@@ -52,7 +54,7 @@ def run_case(run, spec):
     M = g["M"]
     if spec["main_kind"] == "torch_dist2":
         M = g["M"]
-    ok, built = call_real(run, lambda: H.build_real(_geom(spec), budget, cfgs, spec["seed"], spec["main_kind"]), crash_key="ctor-crash", what="InterleavedSampler(...)")
+    ok, built = call_real(run, lambda: H.build_real(_geom(spec), budget, cfgs, spec["seed"], spec["main_kind"], types=spec.get("types")), crash_key="ctor-crash", what="InterleavedSampler(...)")
     if not ok:
         return
     sampler, main, sides, events = built
@@ -134,13 +136,23 @@ def run_case(run, spec):
             return
 
     # ---- the batch sampler view (second real execution on a fresh sampler)
-    ok, built2 = call_real(run, lambda: H.build_real(gm, budget, cfgs, spec["seed"], spec["main_kind"]), crash_key="ctor-crash", what="InterleavedSampler(...)")
+    ok, built2 = call_real(run, lambda: H.build_real(gm, budget, cfgs, spec["seed"], spec["main_kind"], types=spec.get("types")), crash_key="ctor-crash", what="InterleavedSampler(...)")
     if not ok:
         return
     s2 = built2[0]
     if spec["main_kind"] in ("rec", "rec_noepoch", "torch_seq", "kd_dist", "torch_dist2", "kd_dist2"):  # reproducible draws
         def batches():
             held = []  # the batch objects are kept (as a DataLoader's index queue / prefetching does) and read after the iteration
+            if spec["seed"] % 4 == 1 and spec["main_kind"] in ("rec", "torch_seq", "kd_dist", "torch_dist2", "kd_dist2"):  # draws that depend on the announced epoch only
+                # a pass over the batch sampler is started and abandoned after a few batches (a peek, a `break` in the training loop):
+                # the next pass is a whole pass again
+                run.count("abandoned_batch_sampler_passes")
+                it0 = iter(s2.batch_sampler)
+                for _ in range(1 + spec["seed"] % 3):
+                    if next(it0, None) is None:
+                        break
+                if spec["seed"] % 8 == 1:
+                    del it0  # abandoned and collected; otherwise it stays suspended at its yield while the next pass runs
             with H.StepBudget(200 * cap + 5000, H.sched_codes(), what="batch sampler"):
                 for b in s2.batch_sampler:
                     held.append(b)
@@ -173,7 +185,7 @@ def run_case(run, spec):
     # ---- two live iterators over ONE sampler object, advanced alternately: each is the whole stream (the counters of an iteration belong
     #      to that iteration, not to the sampler object)
     if spec["main_kind"] == "rec" and spec["seed"] % 3 == 1 and len(mdl["events"]) <= 4000:
-        ok, built3 = call_real(run, lambda: H.build_real(gm, budget, cfgs, spec["seed"], "rec"), crash_key="ctor-crash", what="InterleavedSampler(...)")
+        ok, built3 = call_real(run, lambda: H.build_real(gm, budget, cfgs, spec["seed"], "rec", types=spec.get("types")), crash_key="ctor-crash", what="InterleavedSampler(...)")
         if not ok:
             return
         s3 = built3[0]
